@@ -629,6 +629,15 @@ func (w *W) assert(cv Value, label string) {
 	w.stats.AssertsSym++
 	c := cv.term()
 	res, model := w.modelWith(w.ts.BNot(c))
+	if res != Unknown {
+		if r2, ok := w.sol.CrossCheck(w.ts.BNot(c)); ok {
+			w.stats.XChecked++
+			if r2 != res {
+				w.stats.XDisagree++
+				w.noteInconclusive(fmt.Sprintf("solver disagreement at assert %s: %s says %s, %s says %s", label, w.sol.kind, res, xcheckSolver, r2))
+			}
+		}
+	}
 	if res == Unknown {
 		w.noteInconclusive("solver unknown at assert " + label)
 		w.abort("solver", "unknown at assert")
